@@ -202,6 +202,9 @@ type QuotaCase struct {
 	MaxCollections     int   `json:"maxCollections"`
 	MaxPoints          int64 `json:"maxCollectionPointCount"`
 	Ops                []Op  `json:"ops"`
+	// ShardSubdir: the node keeps its shard files in this sub-directory of its root (the shard manager's
+	// root directory is a setting of its own)
+	ShardSubdir string `json:"shardSubdir,omitempty"`
 }
 
 func genQuota(t *rapid.T) QuotaCase {
@@ -226,6 +229,7 @@ func genQuota(t *rapid.T) QuotaCase {
 			Payload: rapid.SampledFrom([]int{0, 10, 200}).Draw(t, fmt.Sprintf("p%d", i)), Reuse: rapid.SampledFrom([]int{0, 0, 0, 1, 2}).Draw(t, fmt.Sprintf("r%d", i)),
 			Break: rapid.SampledFrom([]int{0, 0, 0, 0, 0, 1, 2, 3}).Draw(t, fmt.Sprintf("b%d", i))})
 	}
+	c.ShardSubdir = rapid.SampledFrom([]string{"", "", "shards"}).Draw(t, "shardSubdir")
 	return c
 }
 
@@ -234,7 +238,7 @@ func execQuota(c QuotaCase) (res vt.Result) {
 	dir, cleanup := drive.CaseDir()
 	defer cleanup()
 	me := drive.NodeSpec{Host: "127.0.1.1", Port: 1}
-	node, err := drive.NewClusterNode(filepath.Join(dir, "node"), me, []string{me.Name()}, drive.ClusterOpts{MaxShardSize: c.MaxShardSize, MaxShardPointCount: c.MaxShardPointCount, ShardTimeout: 1}, false)
+	node, err := drive.NewClusterNode(filepath.Join(dir, "node"), me, []string{me.Name()}, drive.ClusterOpts{MaxShardSize: c.MaxShardSize, MaxShardPointCount: c.MaxShardPointCount, ShardTimeout: 1, ShardSubdir: c.ShardSubdir}, false)
 	if err != nil {
 		return vt.Result{Err: err}
 	}
@@ -411,7 +415,7 @@ func execQuota(c QuotaCase) (res vt.Result) {
 			broken, brokenFile := "", ""
 			if op.Break > 0 && len(before.shards) > 0 {
 				broken = before.shards[(op.Break-1)%len(before.shards)]
-				brokenFile = drive.ShardFile(filepath.Join(dir, "node"), user, colName(op.Col), broken)
+				brokenFile = drive.ShardFile(filepath.Join(dir, "node", c.ShardSubdir), user, colName(op.Col), broken)
 				node.VerifShardManager().VerifUnloadAll()
 				if err := os.Rename(brokenFile, brokenFile+".aside"); err != nil {
 					return fail("harness: %v", err)
